@@ -104,6 +104,18 @@ def install():
                     "op_padding": ser(ps.primary_op.attrs.get("explicit_padding")) if ps.primary_op else None,
                     "skirt": ser(ps.primary_op.attrs.get("skirt")) if ps.primary_op else None,
                 }
+                try:  # C10: what the stripe geometry check needs in addition (best effort)
+                    po = ps.primary_op
+                    d["cmd"]["is_first_h_stripe"] = bool(cmd.is_first_h_stripe)
+                    d["cmd"]["is_last_h_stripe"] = bool(cmd.is_last_h_stripe)
+                    if po is not None:
+                        d["cmd"]["read_shapes"] = [ser(s.as_list()) if s is not None else None for s in po.read_shapes]
+                        d["cmd"]["write_shape"] = ser(po.write_shape.as_list()) if po.write_shape is not None else None
+                        d["cmd"]["padding_type"] = ser(po.attrs.get("padding"))
+                        d["cmd"]["ifm_resampling_mode"] = ser(po.ifm_resampling_mode)
+                        d["cmd"]["original_type"] = str(po.original_type)
+                except Exception as ex:
+                    d["cmd"]["c10_capture_error"] = repr(ex)
                 w = cmd.weight_tensor
                 if w is not None:
                     wsrc = w.src_tensor if getattr(w, "src_tensor", None) is not None else w
